@@ -356,10 +356,10 @@ func hostilePrograms() []hostile {
 		encEnd := strings.Index(font, "readonly def\n") + len("readonly def\n")
 		variants := []string{
 			font[:encStart] + font[encEnd:],                                      // no Encoding at all
-			font[:encStart] + "/Encoding 10 array def\n" + font[encEnd:],        // short array
-			font[:encStart] + "/Encoding 5 def\n" + font[encEnd:],               // not an array
+			font[:encStart] + "/Encoding 10 array def\n" + font[encEnd:],         // short array
+			font[:encStart] + "/Encoding 5 def\n" + font[encEnd:],                // not an array
 			font[:encStart] + "/Encoding StandardEncoding def\n" + font[encEnd:], // the standard one by name
-			font[:encStart] + "/Encoding 256 array def\n" + font[encEnd:],       // all null
+			font[:encStart] + "/Encoding 256 array def\n" + font[encEnd:],        // all null
 			strings.Replace(font, "/FontMatrix [0.001 0 0 0.001 0 0] def\n", "", 1),
 			strings.Replace(font, "/FontMatrix [0.001 0 0 0.001 0 0] def\n", "/FontMatrix [0 0 0 0 0 0] def\n", 1),
 			strings.Replace(font, "/BlueValues [-10 0 700 710] def\n", "", 1),
